@@ -19,10 +19,10 @@ import (
 
 // NumFiles is the numeric data path of package ion: everything that carries a
 // number, a length, a symbol ID, an exponent or a calendar field between the
-// API and the bytes. The tokenizer, the skipper and textutils convert
+// API and the bytes. The tokenizer and the skipper convert
 // characters (int <-> rune <-> byte), which are not numbers.
 var NumFiles = []string{"bits.go", "buf.go", "bitstream.go", "binaryreader.go", "binarywriter.go", "reader.go", "textreader.go", "textwriter.go", "writer.go",
-	"decimal.go", "timestamp.go", "symboltable.go", "symboltoken.go", "readlocalsymboltable.go", "catalog.go", "marshal.go", "unmarshal.go", "fields.go", "type.go", "ctx.go"}
+	"decimal.go", "timestamp.go", "symboltable.go", "symboltoken.go", "readlocalsymboltable.go", "catalog.go", "marshal.go", "unmarshal.go", "fields.go", "type.go", "ctx.go", "textutils.go"}
 
 // ScopeNum is the numeric data path.
 var ScopeNum = Scope{Name: "numeric data path of package ion", Pkgs: []string{"ion"}, Files: NumFiles}
